@@ -1,6 +1,7 @@
 import RxModel.Catalog
 import RxModel.LSplit
 import RxModel.Numeric
+import RxModel.Parquet
 /-!
 # Operators defined through others, exactly as the code defines them (over `Val`)
 
@@ -167,17 +168,19 @@ def toList : Stage :=
       | _ => .error "AttributeError") (Val.lst []) true none)
     (some toListPlain)
 
-/-- rxsci/data/batch.py (repaired accumulator and terminator) -/
+/-- rxsci/data/batch.py: the generic `batchG` (scan | filter | map as in the code), lists wrapped as
+values; the plain twin is the same composition of `scan_obs`, RxPY `filter` and `map` -/
 def batch (n : Nat) : Pipe :=
-  .ofList [
-    scan (fun acc i =>
-        let b := if (acc.nth 1) = .bool true then [i] else ((acc.nth 0).elems.getD []) ++ [i]
-        .ok (Val.tup [Val.lst b, .bool (b.length = n)]))
-      (Val.tup [Val.lst [], .bool false]) false
-      (some fun acc =>
-        Val.tup [acc.nth 0, .bool ((acc.nth 1) = .bool false ∧ ((acc.nth 0).elems.getD []).length > 0)]),
-    filter (fun i => .ok (.bool ((i.nth 1) = .bool true))),
-    map (fun i => .ok (i.nth 0))]
+  let wrap : List Val → Except Err Val := fun l => .ok (Val.lst l)
+  let L : LocalOp Val Val := compLocal (batchG n) (mapOp wrap)
+  let P : PlainOp Val Val :=
+    compPlain
+      (compPlain
+        (compPlain (pScan (fun acc i => Except.ok (batchAcc n acc i)) (([] : List Val), false) false (some batchTerm))
+                   (pFilter (fun (p : List Val × Bool) => Except.ok p.2) id))
+        (pMap (fun (p : List Val × Bool) => Except.ok p.1)))
+      (pMap wrap)
+  .ofList [.prim L (some P)]
 
 /-- rxsci/operators/distinct_until_changed.py (repaired seed: `None` flag = no item yet) -/
 def duc (key : F1) : Pipe :=
